@@ -6,24 +6,101 @@ import (
 	"reflect"
 	"strings"
 	"time"
+	"unicode"
 )
 
 // eqCtx carries what the equality relation needs to know about the options in force.
 type eqCtx struct {
-	nilAsNull   bool // nil slices/maps are written as null (FormatNil*AsNull, v1 defaults): inside `any` they come back as nil
-	instantOnly bool // the field uses a unix* time format, which does not carry the zone
+	nilAsNull bool // nil slices/maps are written as null (FormatNil*AsNull, v1 defaults)
 }
 
-// chainNil reports whether following the pointers of v reaches a nil pointer, and returns the
-// value at the end of the chain otherwise.
-func chainNil(v reflect.Value) (reflect.Value, bool) {
-	for v.Kind() == reflect.Pointer {
-		if v.IsNil() {
-			return v, true
-		}
-		v = v.Elem()
+// fieldFmt is what a struct field's format tag says about the value directly in that field
+// (it reaches through pointers, never into elements of slices, arrays, maps or nested structs).
+type fieldFmt struct {
+	instantOnly bool   // unix* time formats do not carry the zone
+	layout      string // a time layout that does not carry the whole value (see projectTime)
+}
+
+// difference found by equalRT: where, what, and a normalized class for violation signatures.
+type diff struct {
+	path, what, cause string
+}
+
+func (d *diff) String() string { return d.path + ": " + d.what }
+
+// The named layouts of the time package that the format tag documents (the reference side of
+// the "documented alternative representation": `format:<name>` means time.Format/time.Parse
+// with that constant, any other text that is not an identifier is used as the layout itself).
+var namedLayouts = map[string]string{
+	"ANSIC": time.ANSIC, "UnixDate": time.UnixDate, "RubyDate": time.RubyDate, "RFC822": time.RFC822, "RFC822Z": time.RFC822Z,
+	"RFC850": time.RFC850, "RFC1123": time.RFC1123, "RFC1123Z": time.RFC1123Z, "RFC3339": time.RFC3339, "RFC3339Nano": time.RFC3339Nano,
+	"Kitchen": time.Kitchen, "Stamp": time.Stamp, "StampMilli": time.StampMilli, "StampMicro": time.StampMicro, "StampNano": time.StampNano,
+	"DateTime": time.DateTime, "DateOnly": time.DateOnly, "TimeOnly": time.TimeOnly,
+}
+
+// tagFormat extracts the format option of a json struct tag ("" if there is none).  The format
+// option is always the last one in the tags this monitor writes.
+func tagFormat(tag reflect.StructTag) string {
+	s := tag.Get("json")
+	i := strings.Index(s, ",format:")
+	if i < 0 {
+		return ""
 	}
-	return v, false
+	return strings.Trim(s[i+len(",format:"):], "'")
+}
+
+func fieldFormat(tag reflect.StructTag) fieldFmt {
+	f := tagFormat(tag)
+	switch {
+	case f == "":
+	case strings.HasPrefix(f, "unix"):
+		return fieldFmt{instantOnly: true}
+	case f == "RFC3339Nano":
+	default:
+		if l, ok := namedLayouts[f]; ok {
+			return fieldFmt{layout: l}
+		}
+		// any text that is not an identifier is itself the layout
+		if strings.TrimFunc(f, func(r rune) bool { return r == '_' || unicode.IsLetter(r) || unicode.IsDigit(r) }) != "" {
+			return fieldFmt{layout: f}
+		}
+	}
+	return fieldFmt{}
+}
+
+// projectTime is what a layout carries of t, computed with the toolchain's time package only:
+// the time obtained by parsing the layout's rendering of t.  A layout that carries everything
+// (RFC3339Nano) projects t to itself; DateOnly keeps the date, a two-digit year keeps the year
+// modulo 100 (mapped into 1969..2068), and so on.
+func projectTime(layout string, t time.Time) (time.Time, error) {
+	return time.Parse(layout, t.Format(layout))
+}
+
+// layoutFixedPoint reports whether the layout's rendering of t is reproduced from the parsed
+// time (false e.g. for RFC850 outside 1969..2068: the weekday is written for the full year, the
+// year modulo 100 is read back into 1969..2068, for which the weekday is another one).
+func layoutFixedPoint(layout string, t time.Time) bool {
+	s := t.Format(layout)
+	p, err := time.Parse(layout, s)
+	return err == nil && p.Format(layout) == s
+}
+
+// encodesAsNull reports whether v is written as the JSON null: a nil pointer, a nil interface,
+// a nil slice or map when the options say so, or a pointer/interface leading to one of those.
+func encodesAsNull(v reflect.Value, c *eqCtx) bool {
+	for {
+		switch v.Kind() {
+		case reflect.Pointer, reflect.Interface:
+			if v.IsNil() {
+				return true
+			}
+			v = v.Elem()
+		case reflect.Slice, reflect.Map:
+			return v.IsNil() && c.nilAsNull
+		default:
+			return false
+		}
+	}
 }
 
 func emptyLike(v reflect.Value) bool {
@@ -34,64 +111,80 @@ func emptyLike(v reflect.Value) bool {
 	return false
 }
 
-// equalRT is the equality of the round-trip property: nil and empty containers are identified,
-// a chain of pointers ending in nil is identified with any other such chain, floats are compared
-// by bits, times by instant and zone offset.  It returns "" or the path of the first difference.
-func equalRT(a, b reflect.Value, c *eqCtx, path string) string {
+// equalRT is the equality of the round-trip property: nil and empty containers are identified;
+// a pointer to a value that is written as null is identified with the nil pointer (JSON has one
+// null: "a Go pointer is encoded as null if nil", and null decodes to the nil pointer); floats
+// are compared by bits, times by instant and zone offset — under a layout that does not carry
+// the whole value, by what the layout carries.  It returns nil or the first difference.
+func equalRT(a, b reflect.Value, c *eqCtx, ff fieldFmt, path string) *diff {
 	if a.Type() != b.Type() {
-		return fmt.Sprintf("%s: type %v vs %v", path, a.Type(), b.Type())
+		return &diff{path, fmt.Sprintf("type %v vs %v", a.Type(), b.Type()), "dynamic-type"}
 	}
 	switch a.Kind() {
 	case reflect.Pointer:
-		ea, na := chainNil(a)
-		eb, nb := chainNil(b)
+		na, nb := encodesAsNull(a, c), encodesAsNull(b, c)
 		if na || nb {
 			if na != nb {
-				return fmt.Sprintf("%s: nil pointer vs non-nil (%v, %v)", path, na, nb)
+				return &diff{path, fmt.Sprintf("null-encoded pointer vs not (%v, %v)", na, nb), "pointer-nilness"}
 			}
-			return ""
+			return nil
 		}
-		return equalRT(ea, eb, c, path+"*")
+		return equalRT(a.Elem(), b.Elem(), c, ff, path+"*")
 	case reflect.Bool:
 		if a.Bool() != b.Bool() {
-			return fmt.Sprintf("%s: %v vs %v", path, a.Bool(), b.Bool())
+			return &diff{path, fmt.Sprintf("%v vs %v", a.Bool(), b.Bool()), "bool"}
 		}
 	case reflect.Int, reflect.Int8, reflect.Int16, reflect.Int32, reflect.Int64:
 		if a.Int() != b.Int() {
-			return fmt.Sprintf("%s: %d vs %d", path, a.Int(), b.Int())
+			cause := "signed-integer"
+			if a.Type() == tDuration {
+				cause = "duration"
+			}
+			return &diff{path, fmt.Sprintf("%d vs %d", a.Int(), b.Int()), cause}
 		}
 	case reflect.Uint, reflect.Uint8, reflect.Uint16, reflect.Uint32, reflect.Uint64, reflect.Uintptr:
 		if a.Uint() != b.Uint() {
-			return fmt.Sprintf("%s: %d vs %d", path, a.Uint(), b.Uint())
+			return &diff{path, fmt.Sprintf("%d vs %d", a.Uint(), b.Uint()), "unsigned-integer"}
 		}
 	case reflect.Float32, reflect.Float64:
 		if math.Float64bits(a.Float()) != math.Float64bits(b.Float()) {
-			return fmt.Sprintf("%s: %v (%#x) vs %v (%#x)", path, a.Float(), math.Float64bits(a.Float()), b.Float(), math.Float64bits(b.Float()))
+			cause := a.Kind().String() + "-bits"
+			if a.Float() == 0 && b.Float() == 0 {
+				cause = "zero-sign"
+			}
+			return &diff{path, fmt.Sprintf("%v (%#x) vs %v (%#x)", a.Float(), math.Float64bits(a.Float()), b.Float(), math.Float64bits(b.Float())), cause}
 		}
 	case reflect.String:
 		if a.String() != b.String() {
-			return fmt.Sprintf("%s: %q vs %q", path, a.String(), b.String())
+			return &diff{path, fmt.Sprintf("%q vs %q", a.String(), b.String()), "string"}
 		}
 	case reflect.Slice, reflect.Array:
 		if a.Len() != b.Len() {
-			return fmt.Sprintf("%s: length %d vs %d", path, a.Len(), b.Len())
+			cause := "length"
+			if isByteSeq(a.Type()) {
+				cause = "bytes-length"
+			}
+			return &diff{path, fmt.Sprintf("length %d vs %d", a.Len(), b.Len()), cause}
 		}
 		for i := 0; i < a.Len(); i++ {
-			if d := equalRT(a.Index(i), b.Index(i), c, fmt.Sprintf("%s[%d]", path, i)); d != "" {
+			if d := equalRT(a.Index(i), b.Index(i), c, fieldFmt{}, fmt.Sprintf("%s[%d]", path, i)); d != nil {
+				if isByteSeq(a.Type()) {
+					d.cause = "bytes-content"
+				}
 				return d
 			}
 		}
 	case reflect.Map:
 		if a.Len() != b.Len() {
-			return fmt.Sprintf("%s: map size %d vs %d", path, a.Len(), b.Len())
+			return &diff{path, fmt.Sprintf("map size %d vs %d", a.Len(), b.Len()), "map-size"}
 		}
 		it := a.MapRange()
 		for it.Next() {
 			bv := b.MapIndex(it.Key())
 			if !bv.IsValid() {
-				return fmt.Sprintf("%s: key %v missing", path, it.Key())
+				return &diff{path, fmt.Sprintf("key %v missing", it.Key()), "map-key-" + it.Key().Kind().String()}
 			}
-			if d := equalRT(it.Value(), bv, c, fmt.Sprintf("%s[%v]", path, it.Key())); d != "" {
+			if d := equalRT(it.Value(), bv, c, fieldFmt{}, fmt.Sprintf("%s[%v]", path, it.Key())); d != nil {
 				return d
 			}
 			// float keys: +0 and -0 are one key; the stored key keeps its sign
@@ -99,7 +192,7 @@ func equalRT(a, b reflect.Value, c *eqCtx, path string) string {
 				if k.Float() == 0 {
 					kb := findZeroKey(b)
 					if kb.IsValid() && math.Signbit(kb.Float()) != math.Signbit(k.Float()) {
-						return fmt.Sprintf("%s: zero key sign differs", path)
+						return &diff{path, "zero key sign differs", "zero-sign-map-key"}
 					}
 				}
 			}
@@ -108,46 +201,50 @@ func equalRT(a, b reflect.Value, c *eqCtx, path string) string {
 		an, bn := a.IsNil(), b.IsNil()
 		switch {
 		case an && bn:
-			return ""
+			return nil
 		case an != bn:
 			other := a
 			if an {
 				other = b
 			}
 			if c.nilAsNull && emptyLike(other.Elem()) {
-				return ""
+				return nil
 			}
-			return fmt.Sprintf("%s: nil interface vs %v", path, other.Elem().Type())
+			return &diff{path, fmt.Sprintf("nil interface vs %v", other.Elem().Type()), "interface-nilness"}
 		}
 		if c.nilAsNull && emptyLike(a.Elem()) && emptyLike(b.Elem()) {
-			return ""
+			return nil
 		}
-		return equalRT(a.Elem(), b.Elem(), c, path+".(any)")
+		return equalRT(a.Elem(), b.Elem(), c, fieldFmt{}, path+".(any)")
 	case reflect.Struct:
 		if a.Type() == tTime {
 			ta, tb := a.Interface().(time.Time), b.Interface().(time.Time)
+			cause := "time"
+			if ff.layout != "" {
+				// the layout does not carry everything: compare with what it carries
+				p, err := projectTime(ff.layout, ta)
+				if err != nil {
+					return &diff{path, fmt.Sprintf("harness: reference cannot parse its own rendering of %v under layout %q: %v", ta, ff.layout, err), "harness"}
+				}
+				ta, cause = p, "time-under-layout"
+			}
 			_, oa := ta.Zone()
 			_, ob := tb.Zone()
-			if !ta.Equal(tb) || (oa != ob && !c.instantOnly) {
-				return fmt.Sprintf("%s: time %v vs %v", path, ta.Format(time.RFC3339Nano), tb.Format(time.RFC3339Nano))
+			if !ta.Equal(tb) || (oa != ob && !ff.instantOnly) {
+				return &diff{path, fmt.Sprintf("time %v vs %v", ta.Format(time.RFC3339Nano), tb.Format(time.RFC3339Nano)), cause}
 			}
-			return ""
+			return nil
 		}
 		for i := 0; i < a.NumField(); i++ {
-			fc := c
-			if strings.Contains(a.Type().Field(i).Tag.Get("json"), "format:unix") {
-				c2 := *c
-				c2.instantOnly = true
-				fc = &c2
-			}
-			if d := equalRT(a.Field(i), b.Field(i), fc, path+"."+a.Type().Field(i).Name); d != "" {
+			f := a.Type().Field(i)
+			if d := equalRT(a.Field(i), b.Field(i), c, fieldFormat(f.Tag), path+"."+f.Name); d != nil {
 				return d
 			}
 		}
 	default:
-		return fmt.Sprintf("%s: unexpected kind %v", path, a.Kind())
+		return &diff{path, fmt.Sprintf("unexpected kind %v", a.Kind()), "harness"}
 	}
-	return ""
+	return nil
 }
 
 func findZeroKey(m reflect.Value) reflect.Value {
